@@ -269,6 +269,28 @@ def c01(rep, tier):
         rets = [s for s in walk_stmts(f['body']) if s['k'] == 'return']
         init = strip_copies(strip_casts(rets[0]['e'])) if len(rets) == 1 else None
         why = []
+        if init is not None and init.get('k') == 'call' and init.get('obj') is None:
+            # return helper(args): look through one in-repo helper with a single aggregate return
+            g = vm.facts.fn(init.get('callee'), optional=True) if init.get('callee') else None
+            if g is not None and g.get('body') is not None:
+                grets = [s2 for s2 in walk_stmts(g['body']) if s2['k'] == 'return']
+                others = [s2 for s2 in walk_stmts(g['body']) if s2['k'] not in ('return', 'block')]
+                ginit = strip_copies(strip_casts(grets[0]['e'])) if len(grets) == 1 and not others else None
+                if ginit is not None and ginit.get('k') == 'init' and len(init['args']) == len(g['params']):
+                    mp = {p['d']: a for p, a in zip(g['params'], init['args'])}
+
+                    def subst(x):
+                        if isinstance(x, dict):
+                            if x.get('k') == 'ref' and x.get('d') in mp:
+                                return mp[x['d']]
+                            return {k2: subst(v2) for k2, v2 in x.items()}
+                        if isinstance(x, list):
+                            return [subst(y) for y in x]
+                        if isinstance(x, tuple):
+                            return tuple(subst(y) for y in x)
+                        return x
+                    init = subst(ginit)
+                    rep.analysed(g)
         if init is None or init.get('k') != 'init':
             Cc.unknown(inst, 'factory body is not a single aggregate return')
             continue
@@ -470,12 +492,31 @@ def c01(rep, tier):
     g = m.cfg(dvf)
     prep, exe, argf = find_factory_ev(m, g, 'PrepareExec'), find_factory_ev(m, g, 'Exec'), find_factory_ev(m, g, 'Arg')
     dca = g.calls_to('dispatchCallArgs')
+    gh, hcall, hbind = g, None, {}
+    if not prep and not exe and not argf:
+        # the call sequence may live in a helper that dispatchValue calls once
+        for cev in g.calls():
+            if not cev.e.get('callee_in_repo') or cev.e.get('obj') is not None:
+                continue
+            hs = [x for x in m.all_fns() if x['q'] == cev.e.get('callee')]
+            if len(hs) != 1 or hs[0] is dvf:
+                continue
+            g2 = m.cfg(hs[0])
+            if find_factory_ev(m, g2, 'PrepareExec') and len([x for x in g.calls() if x.e.get('callee') == cev.e.get('callee')]) == 1:
+                gh, hcall = g2, cev
+                hbind = {p['d']: a for p, a in zip(hs[0]['params'], cev.e['args'])}
+                prep, exe, argf = find_factory_ev(m, g2, 'PrepareExec'), find_factory_ev(m, g2, 'Exec'), find_factory_ev(m, g2, 'Arg')
+                rep.analysed(hs[0])
+                break
     if len(prep) == 1 and len(exe) == 1 and len(argf) == 1 and len(dca) == 1:
-        E.check(g.dominates(dca[0], enclosing_emit(m, g, prep[0])), 'dispatchValue/CALL: arguments before PrepareExec', 'dispatchCallArgs dominates the call sequence',
+        E.check(g.dominates(dca[0], hcall if hcall is not None else enclosing_emit(m, g, prep[0])), 'dispatchValue/CALL: arguments before PrepareExec', 'dispatchCallArgs dominates the call sequence',
                 'arguments are evaluated after the new frame was created', W(m, dvf))
-        E.check(g.dominates(enclosing_emit(m, g, prep[0]), enclosing_emit(m, g, argf[0])) and g.dominates(enclosing_emit(m, g, prep[0]), enclosing_emit(m, g, exe[0])) and
-                not g.can_follow(enclosing_emit(m, g, exe[0]), enclosing_emit(m, g, argf[0])), 'dispatchValue/CALL: Arg loop between PrepareExec and Exec', 'order', 'call sequence out of order', W(m, dvf))
-        E.check(m.same_var(prep[0].e['args'][2], {'k': 'ref', 'd': dvf['params'][2]['d']}), 'dispatchValue/CALL: result', 'PREPARE target = the requested target register', 'call result goes to %s' % show(prep[0].e['args'][2]), W(m, dvf))
+        E.check(gh.dominates(enclosing_emit(m, gh, prep[0]), enclosing_emit(m, gh, argf[0])) and gh.dominates(enclosing_emit(m, gh, prep[0]), enclosing_emit(m, gh, exe[0])) and
+                not gh.can_follow(enclosing_emit(m, gh, exe[0]), enclosing_emit(m, gh, argf[0])), 'dispatchValue/CALL: Arg loop between PrepareExec and Exec', 'order', 'call sequence out of order', W(m, dvf))
+        ptgt = strip_casts(prep[0].e['args'][2])
+        if ptgt.get('k') == 'ref' and ptgt.get('d') in hbind:
+            ptgt = strip_casts(hbind[ptgt['d']])
+        E.check(m.same_var(ptgt, {'k': 'ref', 'd': dvf['params'][2]['d']}), 'dispatchValue/CALL: result', 'PREPARE target = the requested target register', 'call result goes to %s' % show(prep[0].e['args'][2]), W(m, dvf))
         a1 = strip_casts(argf[0].e['args'][1])
         E.check(is_call(a1, '::operator[]') and m.same_var(a1['args'][0], argf[0].e['args'][0]), 'dispatchValue/CALL: Arg(i, arglocs[i])', 'argument i goes to parameter register i',
                 'Arg(%s, %s)' % (show(argf[0].e['args'][0]), show(a1)), W(m, dvf))
